@@ -171,7 +171,7 @@ pub fn round_allow(terms: f64, mag: f64) -> f64 {
 pub fn kkt_eval(p: &Prob, x: &[f64], s: &[f64], z: &[f64], skip: &[bool]) -> KktEval {
     let (n, m) = (p.n, p.m);
     let px = p.p.mulvec(x);
-    let xpx = dot(x, &px);
+    let xpx = dot2(x, &px);
     let ax = p.a.mulvec(x);
     let mut rp = vec![];
     let mut axs = vec![];
@@ -190,8 +190,8 @@ pub fn kkt_eval(p: &Prob, x: &[f64], s: &[f64], z: &[f64], skip: &[bool]) -> Kkt
     let zz: Vec<f64> = (0..m).map(|i| if skip[i] { 0.0 } else { z[i] }).collect();
     let atz = p.a.tmulvec(&zz);
     let rd: Vec<f64> = (0..n).map(|j| px[j] + atz[j] + p.q[j]).collect();
-    let qtx = dot(&p.q, x);
-    let btz = dot(&bk, &zk);
+    let qtx = dot2(&p.q, x);
+    let btz = dot2(&bk, &zk);
     let pcost = 0.5 * xpx + qtx;
     let dcost = -btz - 0.5 * xpx;
     let gap_abs = (pcost - dcost).abs();
